@@ -666,6 +666,46 @@ def check_shortcuts(facts, rep, dt):
         rep.indet('E9.R7: Cob::part_eval outside the recognised fragment: %s' % e)
 
 
+def check_based_predicate(facts, rep):
+    """R8: "this circle carries the base point" is decided by one predicate at both delooping sites - the complex
+    (TngComplex::contains_base_pt) and the tracked cycles (BuildElem::deloop): base_pt.map(|e| c.contains(e)).unwrap_or(false).
+    Membership must be `contains`: the base point is an edge *on* the circle, not a distinguished (e.g. minimal) edge of
+    it, otherwise the reduced theory depends on how the edges are numbered."""
+    sites = {'complex': 'yui_kh::kh::internal::v2::tng_complex::TngComplex::<R>::contains_base_pt',
+             'cycles': 'yui_kh::kh::internal::v2::builder::BuildElem::<R>::deloop'}
+    got = {}
+    for who, fn in sites.items():
+        b = facts.bodies.get(fn)
+        if b is None:
+            rep.indet('E9.R8: %s not found' % fn)
+            return
+        rep.saw(b)
+        found = set()
+        for p in SymEx(b, havoc_loops=True, max_paths=20000).run():
+            for e in p.calls():
+                if e.name.split('::')[-1] == 'unwrap_or' and len(e.args) == 2:
+                    m = strip(e.args[0])
+                    if m[0] == 'call' and m[1].split('::')[-1] == 'map' and len(m[2]) == 2 and sk(m[2][0]).replace('*', '').replace('&', '') == 'arg1.base_pt':
+                        clo = strip(m[2][1])
+                        body = facts.bodies.get(clo[1]) if clo[0] == 'closure' else None
+                        pr = None
+                        if body is not None:
+                            rr = {re.sub(r'\^_ref__', '^', sk(q.ret)) for q in SymEx(body).run() if q.end == 'return'}
+                            pr = sorted(rr)[0] if len(rr) == 1 else None
+                        found.add((pr, sk(e.args[1])))
+        got[who] = found
+    inst = 'based circle|complex and cycles use base_pt.map(|e| c.contains(e)).unwrap_or(false)'
+    want = {('contains(arg1.^c, arg2)', '0')}
+    if got['complex'] == want and got['cycles'] == want:
+        rep.ok('E9.R8-based-circle-predicate', inst, 'contains(c, e), default false, at both sites')
+    elif not got['complex'] or not got['cycles'] or any(x[0] is None for v in got.values() for x in v):
+        rep.indet('E9.R8: based-circle predicate outside the recognised fragment: %s' % got)
+    else:
+        rep.violation('E9.R8-based-circle-predicate', inst,
+                      'the complex decides "circle carries the base point" by %s, the tracked cycles by %s; both must be contains(c, e) with default false - a based circle delooped with both labels in one place and with X only in the other (or depending on the edge numbering) changes the reduced homology' %
+                      (sorted(got['complex']), sorted(got['cycles'])), where='yui-khovanov/src/kh/internal/v2/tng_complex.rs')
+
+
 def run(facts, rep, parts=('R1', 'R4', 'R6')):
     selftest(rep)
     dt = None
@@ -677,3 +717,4 @@ def run(facts, rep, parts=('R1', 'R4', 'R6')):
         check_shortcuts(facts, rep, dt)
     if 'R6' in parts:
         check_deloop(facts, rep)
+        check_based_predicate(facts, rep)
